@@ -29,8 +29,16 @@ func runSymCase(c *Ctx, regs []symReg, input []rune, rereads int) {
 	var oracle string
 	impl := safeCall(func() string {
 		root := generic.NewSymbolRootNode()
-		for _, r := range regs {
+		for i, r := range regs {
 			root.Add(string(r.sym), r.typ)
+			if i < len(regs)-1 {
+				// use / register / use: the table is used between registrations (nothing a scan looked up
+				// before a registration may be remembered after it)
+				sc := rio.NewStringScanner(string(input))
+				for n := 0; sc.Peek() != -1 && n < len(input)+2; n++ {
+					root.NextToken(sc)
+				}
+			}
 		}
 		var first string
 		// repeated reads from one tree (the D03 pattern): every pass must give the same tokens
